@@ -9,7 +9,8 @@ pub fn b(s: &str) -> Vec<u8> {
 
 /// Segment alphabet SEG. `level` 0 = structural core, 1 = quick, 2 = thorough.
 pub fn seg_alphabet(f: Family, level: u8) -> Vec<Vec<u8>> {
-	let mut v: Vec<&str> = vec!["", ".", "..", "a", "a:b"];
+	// "1:b": a first segment that contains ':' without looking like a scheme
+	let mut v: Vec<&str> = vec!["", ".", "..", "a", "a:b", "1:b"];
 	if level >= 1 {
 		v.extend(["b", "%2E", "%41", "A", "~", "x@y"]);
 	}
